@@ -6,6 +6,7 @@ import (
 	"regexp"
 	"strconv"
 	"strings"
+	"unicode/utf8"
 
 	"verif/core"
 	"verif/gen"
@@ -37,6 +38,8 @@ func (c12) Plan(tier string) []core.Segment {
 		{Gen: "spec", Count: gen.CorpusSize(), Exhaustive: true},
 		{Gen: "specprefix", Count: gen.PrefixCount(), Exhaustive: true},
 		{Gen: "lines", Profile: "default", Count: scale(tier, 500_000, 8_000_000)},
+		{Gen: "limits", Profile: "default", Count: scale(tier, 12_000, 300_000), Desc: "documents on numeric thresholds: 999-character labels, 9-digit list numbers, reference digit counts, scheme and domain lengths, line endings on the 8 KiB read window, indentation columns, long runs, deep nesting"},
+		{Gen: "defsplit", Profile: "default", Count: scale(tier, 100_000, 4_000_000), Desc: "definition-like paragraphs cut into lines at every place, inside containers with space/tab/partly consumed tab prefixes and hostile bytes right after the prefix"},
 		{Gen: "lines", Profile: "hostile", Count: scale(tier, 50_000, 2_000_000)},
 		{Gen: "soup", Profile: "inline", Count: scale(tier, 400_000, 6_000_000)},
 		{Gen: "soup", Profile: "default", Count: scale(tier, 100_000, 4_000_000)},
@@ -75,6 +78,24 @@ var c12WS = []string{" ", " ", "\t", "\n", "  ", " \n ", "\t \t", " ", " ", "
 
 type c12Spec struct {
 	classes []int // index into c12Classes, or -1 for a whitespace slot
+	// pad > 0: every label also holds a run of pad characters (one of padUnits, chosen per
+	// label), which puts the label's length around the limit of 999 characters
+	pad int
+}
+
+// padUnits fold to each other within a pair; the two-byte and three-byte units make the
+// byte length differ from the character count.
+var padUnits = [][]string{{"q", "Q"}, {"é", "É"}, {"ж", "Ж"}, {"ａ", "Ａ"}}
+
+// labelTooLong: "a link label can have at most 999 characters inside the square brackets".
+// Leading spaces and tabs of a continuation line are not part of the paragraph's content,
+// and a line ending is one character.
+func labelTooLong(l string) bool { return labelChars(l) > 999 }
+
+var reContIndent = regexp.MustCompile(`\n[ \t]+`)
+
+func labelChars(l string) int {
+	return utf8.RuneCountInString(reContIndent.ReplaceAllString(l, "\n"))
 }
 
 func c12Label(r *core.Rand, spec c12Spec, exact bool) string {
@@ -98,6 +119,10 @@ func c12Label(r *core.Rand, spec c12Spec, exact bool) string {
 			sb.WriteString(cl[r.Intn(len(cl))])
 		}
 	}
+	if spec.pad > 0 {
+		u := padUnits[spec.pad%len(padUnits)]
+		sb.WriteString(strings.Repeat(u[r.Intn(2)], spec.pad))
+	}
 	if !exact && r.Intn(4) == 0 {
 		sb.WriteString([]string{" ", "\t", "\n", " "}[r.Intn(4)])
 	}
@@ -106,7 +131,7 @@ func c12Label(r *core.Rand, spec c12Spec, exact bool) string {
 
 // validLabel: at least one non-whitespace character, no blank line inside.
 func validLabel(l string) bool {
-	if strings.Trim(l, " \t\n") == "" || len(l) > 900 {
+	if strings.Trim(l, " \t\n") == "" || len(l) > 4000 {
 		return false
 	}
 	lines := strings.Split(l, "\n")
@@ -163,6 +188,9 @@ func init() {
 					spec.classes = append(spec.classes, -1)
 				}
 				spec.classes = append(spec.classes, r.Intn(len(c12Classes)))
+			}
+			if r.Intn(25) == 0 {
+				spec.pad = r.Range(986, 1001)
 			}
 			nDefs := r.Range(1, 4)
 			var defs, uses []string
@@ -228,13 +256,17 @@ var (
 	reC12Title = regexp.MustCompile(`title="t(\d+)"`)
 )
 
-func unprefix(s string) string {
-	// undo prefixLines for labels inside containers
+func unprefix(s, prefix string) (string, bool) {
+	// undo prefixLines for labels inside containers; every continuation line must carry
+	// the prefix the generator wrote (a minimised input that dropped one is not judged)
 	lines := strings.Split(s, "\n")
 	for i := 1; i < len(lines); i++ {
-		lines[i] = strings.TrimPrefix(strings.TrimPrefix(lines[i], "> "), "  ")
+		if !strings.HasPrefix(lines[i], prefix) {
+			return "", false
+		}
+		lines[i] = lines[i][len(prefix):]
 	}
-	return strings.Join(lines, "\n")
+	return strings.Join(lines, "\n"), true
 }
 
 func (c12) Check(ctx *core.Ctx, c *core.Case) {
@@ -284,12 +316,21 @@ func (c12) Check(ctx *core.Ctx, c *core.Case) {
 				ctx.Skip("label_outside_fold_domain")
 				return
 			}
+			if labelTooLong(l) {
+				ctx.Inc("labels_over_999_characters")
+			} else if labelChars(l) >= 990 {
+				ctx.Inc("labels_of_990_to_999_characters")
+			}
 			uses = append(uses, use{n, l})
 		case strings.HasPrefix(p, "para"):
 		default:
 			raw := p
 			if strings.HasPrefix(p, "> ") || strings.HasPrefix(p, "- ") {
-				raw = unprefix(p[2:])
+				var ok bool
+				if raw, ok = unprefix(p[2:], map[byte]string{'>': "> ", '-': "  "}[p[0]]); !ok {
+					ctx.Skip("not_generator_shape")
+					return
+				}
 			}
 			i := strings.LastIndex(raw, "]: /d")
 			if !strings.HasPrefix(raw, "[") || i < 0 {
@@ -310,10 +351,16 @@ func (c12) Check(ctx *core.Ctx, c *core.Case) {
 				ctx.Skip("label_outside_fold_domain")
 				return
 			}
+			if labelTooLong(raw) {
+				ctx.Inc("labels_over_999_characters")
+				continue // not a label, so not a definition
+			} else if labelChars(raw) >= 990 {
+				ctx.Inc("labels_of_990_to_999_characters")
+			}
 			defs = append(defs, def{label.Normalize(raw), id})
 		}
 	}
-	if len(uses) != 4 || uses[0].n != 0 || uses[1].n != 1 || uses[2].n != 2 || uses[3].n != 3 || len(defs) == 0 {
+	if len(uses) != 4 || uses[0].n != 0 || uses[1].n != 1 || uses[2].n != 2 || uses[3].n != 3 {
 		ctx.Skip("not_generator_shape")
 		return
 	}
@@ -346,7 +393,7 @@ func (c12) Check(ctx *core.Ctx, c *core.Case) {
 		want := -1
 		un := label.Normalize(u.label)
 		for _, d := range defs {
-			if d.norm == un {
+			if d.norm == un && !labelTooLong(u.label) {
 				want = d.id
 				break
 			}
